@@ -7,7 +7,7 @@
 From Coq Require Import String.
 From Coq Require Import List Ascii ZArith Bool.
 From CGV Require Import Base.PyBase Base.PyVal Base.NxGraph Gen.HydroGen Hydro.Hydrogens Hydro.HydroDefs
-     Hydro.HydrogensProofs Hydro.SquashDefs Hydro.RebuildProofs Hydro.Aromatic Hydro.AromaticProofs Hydro.AromaticOrders.
+     Hydro.HydrogensProofs Hydro.SquashDefs Hydro.RebuildProofs Hydro.Aromatic Hydro.AromaticProofs Hydro.AromaticOrders Hydro.AromaticClosed.
 Import ListNotations.
 Open Scope Z_scope.
 
@@ -212,6 +212,31 @@ Theorem C09_aromatic_model_orders : forall strict g M L g1, car_model strict g M
        (nadj n) (nadj m)) g g1.
 Proof. exact car_model_orders. Qed.
 
+(** CLOSED FORM: whenever the modelled step returns, its result is one pass over the input graph - `aromatic` :=
+    (the atom lies on a ring of L); `order` := 1.5 on a bond of a ring of L, else 2 on a bond of M that is not
+    wildcard-wildcard, else 1 where it was 1.5, else untouched *)
+Theorem C09_aromatic_model_closed : forall strict g M L g1, car_model strict g M L = Ok g1 ->
+  g1 = rewrite (fun k a => aset k_arom (VBool (memz k (ring_nodes L))) a)
+               (fun k w d => if on_list (ring_bonds L) k w then aset k_order v15 d
+                             else if on_list (kept (demote (reset_arom g)) M) k w then aset k_order (VInt 2) d
+                             else if is_15 d then aset k_order (VInt 1) d else d) g.
+Proof. exact car_model_closed. Qed.
+
+(** ... which reads the two transcripts through MEMBERSHIP only: the order in which networkx lists the matching and the
+    rings does not matter (nor, C09_aromatic_model_closed_nonvacuous, where a ring starts and in which direction it is
+    walked) - what stays a transcript is a SET of bonds and a SET of rings *)
+Theorem C09_aromatic_model_order_irrelevant : forall strict strict' g M L M' L' g1 g1',
+  Permutation.Permutation M M' -> Permutation.Permutation L L' ->
+  car_model strict g M L = Ok g1 -> car_model strict' g M' L' = Ok g1' -> g1 = g1'.
+Proof. exact car_model_order_irrelevant. Qed.
+
+Example C09_aromatic_model_closed_nonvacuous :
+  exists g1, car_model true benzene [(0, 1); (2, 3); (4, 5)] [([0; 1; 2; 3; 4; 5], false)] = Ok g1 /\
+             car_model true benzene [(4, 5); (0, 1); (2, 3)] [([0; 1; 2; 3; 4; 5], false)] = Ok g1 /\
+             car_model true benzene [(3, 2); (5, 4); (1, 0)] [([3; 2; 1; 0; 5; 4], false)] = Ok g1 /\
+             g1 = car_closed [(0, 1); (2, 3); (4, 5)] [0; 1; 2; 3; 4; 5] (ring_edges [0; 1; 2; 3; 4; 5]) benzene.
+Proof. exact car_model_closed_nonvacuous. Qed.
+
 (** non-vacuity: benzene as a fragment writes it (all aromatic, all 1.5) is kekulised and marked again; without a
     marked ring the kekulised state stays; a non-matching, an extendable matching and a non-alternating ring are
     rejected; an odd ring that cannot be kekulised raises SyntaxError exactly when strict *)
@@ -247,3 +272,5 @@ Print Assumptions C09_aromatic_model_arom.
 Print Assumptions C09_rebuild_through_model.
 Print Assumptions C09_rebuild_valence_exact_model.
 Print Assumptions C09_aromatic_model_orders.
+Print Assumptions C09_aromatic_model_closed.
+Print Assumptions C09_aromatic_model_order_irrelevant.
